@@ -560,6 +560,44 @@ def load_fuzz_corpus(ctx, n_quick, salt=0):
     return [list(s) for s in rr.sample(scs, n_quick)]
 
 
+def load_fuzz_corpus_z(ctx, n_quick, salt=0):
+    """corpus/fuzz/connz.jsonl (response/request decompression ON), each script rewritten from its `play` line into explicit data calls
+    (`conn req|res|reqgap|resgap ...`, preceded by `conn zon`) so that the inflate results of every call can be recorded and replayed"""
+    p = os.path.join(CORPUS, "fuzz", "connz.jsonl")
+    scs = []
+    if os.path.exists(p):
+        for l in open(p):
+            l = l.strip()
+            if not l:
+                continue
+            try:
+                j = json.loads(l)
+            except Exception:
+                continue
+            if not (isinstance(j, list) and j and j[0].startswith("conn new ")):
+                continue
+            out = [j[0], "conn open", "conn zon"]
+            for x in j:
+                t = x.split(" ")
+                if len(t) == 3 and t[1] == "play":
+                    for it in t[2].split(","):
+                        if it.startswith("g>"):
+                            out.append("conn reqgap " + it[2:])
+                        elif it.startswith("g<"):
+                            out.append("conn resgap " + it[2:])
+                        elif it.startswith(">") and it[1:] != "-":
+                            out.append("conn req " + it[1:])
+                        elif it.startswith("<") and it[1:] != "-":
+                            out.append("conn res " + it[1:])
+            out += ["conn close", "conn dump", "conn destroy"]
+            scs.append(out)
+    if ctx.tier != "quick" or len(scs) <= n_quick:
+        return scs
+    import random as _r
+    rr = _r.Random("%s/%s" % (ctx.seed if hasattr(ctx, "seed") else 0, salt))
+    return rr.sample(scs, n_quick)
+
+
 def load_fuzz_lines(prefixes):
     """corpus/fuzz/fn.jsonl: one-line scripts for the stateless families distilled offline (tools/fuzz_distill.py with FUZZ_TARGET=fn);
     returns the lines that start with one of the prefixes"""
